@@ -251,8 +251,9 @@ Record did_url := { u_did : list N; u_method : list N; u_mid : list N;
 Definition oapp (o : option (list N)) : list N := match o with Some l => l | None => [] end.
 Definition did_url_to_string (u : did_url) : list N := u_did u ++ oapp (u_path u) ++ oapp (u_query u) ++ oapp (u_frag u).
 
-(* DIDUrl::parse = third-party parse, then from_base_did_url *)
+(* DIDUrl::parse = whitespace guard, third-party parse, then from_base_did_url *)
 Definition did_url_parse (data : list N) : outcome did_url did_err :=
+  if negb (list_eqb (trim data) data) then Err EScheme else      (* fix 358acae: verbatim input only *)
   obind (tp_parse data) (fun c =>
   obind (tp_path data c) (fun p =>
   obind (set_path (Some p)) (fun up =>
